@@ -14,6 +14,7 @@ class Mem:
         self.low = sp0          # lowest stack pointer value reached
         self.arg_bytes = arg_bytes
         self.extra = list(extra_regions)   # (lo, hi, writable)
+        self.reserved = []                 # (lo, hi, what): inside the stack range but not the function's to touch
         self.violations = []
         self.loads = self.stores = 0
 
@@ -26,6 +27,10 @@ class Mem:
 
     def _check(self, addr, size, write, what):
         STATE, SP0 = self.state_lo, self.sp0
+        for lo, hi, whatr in self.reserved:
+            if addr < hi and lo < addr + size:
+                self.violations.append("%s of %d bytes at %s inside %s (address=entry_sp%+d)" % ("store" if write else "load", size, what, whatr, addr - SP0))
+                return
         if STATE <= addr and addr + size <= self.state_hi:
             return
         if self.sp <= addr and addr + size <= SP0:
